@@ -243,7 +243,7 @@ func (cl *cluster) probeTLS(name, addr string, cfg *tls.Config, items [][]byte, 
 				t := t
 				acts = append(acts, sim.Action{Key: "run " + t.Name, Do: func() { cl.S.Release(t) }})
 			}
-			if t.Name == name || t.Name == fmt.Sprintf("c%d", c.P.ID) || taskObjPipe(t) == c.P.ID {
+			if t.Name == name || t.Name == fmt.Sprintf("c%d", c.P.ID) || taskObjPipe(t) == c.P.ID || anonymous(t) {
 				t := t
 				acts = append(acts, sim.Action{Key: "run " + t.Name, Do: func() { cl.S.Release(t) }})
 			}
